@@ -90,6 +90,31 @@ theorem no_cut_inside_bracket (optAll : Bool) (rd : Read) (rest : List Read) (s 
     rw [rlex_append, hinv, hline]; unfold abs eolMode; split <;> rfl
   exact readLoop_continues optAll rd rest s buf orig s' out hrun heof (Or.inr (by omega))
 
+/-- **chunks_concat** (one call): the returned bytes are the consumed input with `#!` turned into `//`
+    (`Rw`: equal except that adjacent input bytes `#` `!` may appear as `/` `/`); after a literal
+    error they are such an image of a prefix of the consumed input.  For ALL lists of lines. -/
+theorem chunk_is_input (optAll : Bool) (reads : List Read) :
+    ChunkRw (readMultiline optAll reads).1 :=
+  readLoop_rw optAll reads init [] [] Rw.nil
+
+/-- **chunks_concat** (the caller's loop, any number of calls): if no call reported a literal error,
+    the concatenation of all returned chunks followed by the lines not yet read is the input stream,
+    modulo the `#!` -> `//` rewrite.  Nothing is lost, duplicated or reordered. -/
+theorem chunks_concat (optAll : Bool) (fuel : Nat) (reads : List Read)
+    (hok : ∀ c ∈ readAll optAll fuel reads, (∀ b, c.err ≠ .lit b) ∧ c.err ≠ .panic) :
+    Rw (reads.map (·.line)).flatten
+      (((readAll optAll fuel reads).map (·.bytes)).flatten ++ ((readAllRest optAll fuel reads).map (·.line)).flatten) := by
+  rw [← readAll_consumes optAll fuel reads]
+  exact Rw.append (readAll_rw optAll fuel reads hok) (Rw.refl _)
+
+/-- ... and byte-for-byte equal when the stream contains no `#!` at all -/
+theorem chunks_concat_exact (optAll : Bool) (fuel : Nat) (reads : List Read)
+    (hok : ∀ c ∈ readAll optAll fuel reads, (∀ b, c.err ≠ .lit b) ∧ c.err ≠ .panic)
+    (hno : ∀ p q : List UInt8, (reads.map (·.line)).flatten ≠ p ++ 35 :: 33 :: q) :
+    (reads.map (·.line)).flatten =
+      ((readAll optAll fuel reads).map (·.bytes)).flatten ++ ((readAllRest optAll fuel reads).map (·.line)).flatten :=
+  Rw.eq_of_no_hashbang (chunks_concat optAll fuel reads hok) hno
+
 /-! ### obligations over the regenerated keyword table (etoken.Lookup) -/
 
 /-- every word of the table can be the result of the a-z scan of `lastIsKeywordIgnoresNl` -/
@@ -137,5 +162,13 @@ example : ∃ s₁ acc₁, runLine 0 init 0 [121, 32, 61, 32, 120, 32] [] = .don
 /-- `WF` is satisfiable by a non-trivial stream, and "#!" is rewritten -/
 example : (readMultiline true [⟨[35, 33, 120, 10], false⟩, ⟨[97, 10], false⟩]).1.bytes = [47, 47, 120, 10, 97, 10] := by
   decide
+
+/-- the caller's loop on "#!x\n" "a +\n" "b\n" "c\n": three calls (the last reports EOF), everything read,
+    no error: the hypotheses of `chunks_concat` hold and its conclusion is not trivial -/
+example :
+    let reads : List Read := [⟨[35, 33, 120, 10], false⟩, ⟨[97, 32, 43, 10], false⟩, ⟨[98, 10], false⟩, ⟨[99, 10], false⟩]
+    (readAll false 9 reads).map (·.bytes) = [[47, 47, 120, 10], [97, 32, 43, 10, 98, 10], [99, 10], []] ∧
+    readAllRest false 9 reads = [] ∧
+    (∀ c ∈ readAll false 9 reads, (∀ b, c.err ≠ .lit b) ∧ c.err ≠ .panic) := by decide
 
 end ReadMulti
